@@ -20,6 +20,7 @@
 #include <boost/archive/iterators/insert_linebreaks.hpp>
 #include <boost/archive/iterators/remove_whitespace.hpp>
 #include <algorithm>
+#include <cctype>
 #include <string>
 
 namespace via
@@ -67,6 +68,11 @@ namespace via
 
           try
           {
+            // Line breaks and other whitespace are not part of the encoding
+            input.erase(std::remove_if(input.begin(), input.end(),
+                        [](unsigned char c){ return std::isspace(c) != 0; }),
+                        input.end());
+
             // If the input isn't a multiple of 4, pad with =
             size_t num_pad_chars((4 - input.size() % 4) % 4);
             input.append(num_pad_chars, PAD_CHARACTER);
